@@ -791,6 +791,8 @@ var corpus = []string{
 	`m={9223372036854775808.0:"big", 1:"one", 9223372036854775807:"max"}; for kv=m{print(kv.value,"")}; first(m).value`,
 	`[(-9223372036854775807-1) >= -9223372036854775808.0, (-9223372036854775807-1) > -9223372036854775808.0, -9223372036854777856.0 < (-9223372036854775807-1), 9223372036854774784.0 < 9223372036854775807, 9223372036854777856.0 > 9223372036854775807]`,
 	`[9007199254740993 > 9007199254740992.0, 9007199254740993 == 9007199254740992.0, 9007199254740993 < 9007199254740994.0, [9007199254740993] <= [9007199254740992.0], -9007199254740993 < -9007199254740992.0]`,
+	`big = "0123456789abcdef"*300; catch(println(big, 1/(len(big)-4800)))`,
+	`big = "0123456789abcdef"*300; f=func(n){println("in f", n); n*2}; println(big, f(3))`,
 	`x=1; g=func(a,b,c,d,e){a+b+c+d+e+x}; f=func(n){g(n,0,0,0,0)}; println(f(1)); x=10; println(f(1))`,
 	`cnt=0; note=func(..){cnt=cnt+1; len(..)}; step=func(n){for i=n{note(i,1,2,3,4)}; n}; step(3); println(cnt); step(3); println(cnt)`,
 	`x=1; g=func(a,b,c,d){a+b+c+d+x}; f=func(n){g(n,0,0,0)}; println(f(1)); x=10; println(f(1))`,
@@ -997,6 +999,28 @@ func (r *runner) outputSizes(thorough bool) int {
 				per := total/lv + 1
 				emit(fmt.Sprintf("rp = func(d, s) {if d <= 0 {return 0}; println(d, s); 1 + rp(d - 1, s)}; w = \"y\" * %d; [rp(%d, w), rp(%d, w), rp(2, \"q\")]", per, lv, lv), "recursive")
 			}
+		}
+	}
+	// ARGUMENT LISTS of print / println / error: earlier arguments totalling just below / above 4 KiB and 64 KiB, and a
+	// later argument that (i) errors, (ii) prints while it is evaluated (a function call), (iii) is a remembered call
+	// replaying its output.  All arguments are evaluated before anything of the statement itself is written.
+	for _, T := range []int{4096, 65536} {
+		for _, delta := range []int{-150, 400} {
+			total := T + delta
+			k := total/16 + 1
+			pre := fmt.Sprintf("big = \"0123456789abcdef\" * %d; half = \"ab\" * %d; f = func(n) {println(\"in f\", n); n * 2}; ", k, total/4+1)
+			for _, b := range []string{"println", "print"} {
+				// (i) a later argument errors: nothing of this statement is printed
+				emit(pre+fmt.Sprintf("r = catch(%s(big, 1 / (len(big) - %d))); println(\"after\", r.err)", b, k*16), "args-error")
+				emit(pre+fmt.Sprintf("r = catch(%s(half, half, 7, [1][0] / 0)); println(\"after\", r.err); %s(\"x\", half, nosuch)", b, b), "args-error")
+				// (ii) a later argument prints through a function call: its text comes first
+				emit(pre+fmt.Sprintf("%s(big, f(3)); %s(\"s\", half, f(4), half, f(5))", b, b), "args-print")
+				emit(pre+fmt.Sprintf("g = func(m) {%s(big, f(m)); m}; [g(1), g(2)]", b), "args-print")
+				// (iii) a remembered call replays its output while the argument list is evaluated
+				emit(pre+fmt.Sprintf("f(3); %s(big, f(3)); %s(half, f(3), half, f(3))", b, b), "args-remembered")
+			}
+			emit(pre+"r = catch(error(big, f(1), 1 / 0)); println(\"after\", r.err); r2 = catch(error(\"e\", half, f(2))); println(len(r2.value))", "args-error-builtin")
+			emit(pre+"println([big, f(1)], {\"k\": f(2)}, half)", "args-print")
 		}
 	}
 	return n
